@@ -11,7 +11,7 @@ With C's truncating division and a symbolic denominator that normal form is uniq
 exactly when their normal forms are equal (n/m + 1 and (n + m)/m differ for -m < n < 0, i.e. for an empty loop). A shape the interpreter does not know
 (another operator, a loop, an unknown condition) raises TermError - the caller reports analysis-broken, never a verdict.
 """
-from .facts import kids, strip, walk, is_call, call_args, call_object, callee, render, literal, noid
+from .facts import kids, strip, walk, is_call, call_args, call_object, callee, render, literal, noid, declref, decl_of
 
 NS = "occa::lang::"
 TRANSPARENT_CALLS = ("::wrapInParentheses", "::clone", "::cloneExprNode", "::to", "expr::parens", "expr::popExprNode", "expr::createStatement")
@@ -520,3 +520,67 @@ def explore(make_builder, run, max_depth=5):
             work.append(ch + [True])
             work.append(ch + [False])
     return out
+
+
+# ---- trusted base of TERM / PAREN re-verified: the expression DSL builds what its operators say ---------------------------------------
+def dsl_soundness(prog, report):
+    """report(ok, function, key, site, detail) for each DSL primitive the abstract execution interprets:
+       `a <op> b` on occa::lang::expr builds a binaryOpNode carrying the operator object whose spelling is <op>, operands in order;
+       expr::parens goes through wrapInParentheses; expr::operator[] builds subscriptNode(value, index)"""
+    from .paren import operator_table
+    tab = operator_table(prog)
+    n = 0
+    for f in prog.funcs.values():
+        q = f.q
+        if not q.startswith(NS + "operator") or len(f.d.get("params", [])) != 2 or "expr" not in f.d.get("sig", ""):
+            continue
+        sp = q[len(NS + "operator"):].strip()
+        if sp == "<<":
+            continue
+        rets = [r for r in f.walk() if r["k"] == "ReturnStmt"]
+        calls = [c for c in f.walk() if is_call(c) and callee(c).endswith("expr::binaryOpExpr")]
+        ok, detail = False, "does not return expr::binaryOpExpr(op, left, right)"
+        if len(rets) == 1 and len(calls) == 1:
+            a = call_args(calls[0])
+            opq = (declref(a[0]) or {}).get("n", "")
+            pids = [p["d"] for p in f.d["params"]]
+            order = [decl_of(a[1]), decl_of(a[2])] == pids
+            built = tab.get(opq, ("?",))[0]
+            ok = built == sp and order
+            detail = ("builds `%s` with (left, right)" % built) if ok else \
+                     ("`a %s b` builds a `%s` node%s: every expression the translator assembles with it means something else" % (sp, built, "" if order else " with its operands swapped"))
+        report(ok, q + " " + f.d.get("sig", "")[:40], "dsl:operator %s" % sp, f.site(rets[0]) if rets else "%s:%d" % (f.relfile, f.d["line"]), detail)
+        n += 1
+    b = prog.fn(NS + "expr::binaryOpExpr")
+    news = [x for x in b.walk() if x["k"] == "CXXNewExpr"]
+    ok = False
+    if len(news) == 1:
+        ctor = [x for x in walk(news[0]) if x["k"] in ("CXXConstructExpr", "CXXTemporaryObjectExpr")]
+        if ctor:
+            a = kids(ctor[0])
+            pids = [p["d"] for p in b.d["params"]]
+            def base_param(e):
+                for x in walk(e):
+                    if x["k"] == "DeclRefExpr" and x.get("d") in pids:
+                        return pids.index(x["d"])
+                return None
+            ok = "binaryOpNode" in b.tname(news[0].get("nt")) and len(a) >= 4 and [base_param(x) for x in a[1:4]] == [0, 1, 2]
+    report(ok, b.q, "dsl:binaryOpExpr(op, left, right) -> binaryOpNode(op, left, right)", "%s:%d" % (b.relfile, b.d["line"]),
+           "operator and operands handed on in order" if ok else "the node is not built from (op, left, right) in that order")
+    p = prog.fn(NS + "expr::parens")
+    ok = any(is_call(c) and callee(c).endswith("::wrapInParentheses") for c in p.walk()) and not any(x["k"] == "IfStmt" and "node" not in noid(render(kids(x)[0], False)) for x in p.walk())
+    report(ok, p.q, "dsl:parens -> wrapInParentheses", "%s:%d" % (p.relfile, p.d["line"]), "every non-empty expression goes through the node's wrapInParentheses" if ok else "expr::parens does not always wrap")
+    s = [f for f in prog.fns(NS + "expr::operator[]")]
+    ok = False
+    for f in s:
+        news = [x for x in f.walk() if x["k"] == "CXXNewExpr"]
+        if len(news) == 1 and "subscriptNode" in f.tname(news[0].get("nt")):
+            ctor = [x for x in walk(news[0]) if x["k"] in ("CXXConstructExpr", "CXXTemporaryObjectExpr")]
+            a = kids(ctor[0]) if ctor else []
+            pid = f.d["params"][0]["d"]
+            if len(a) >= 3:
+                val_this = any(x["k"] == "CXXThisExpr" for x in walk(a[1])) and not any(x["k"] == "DeclRefExpr" and x.get("d") == pid for x in walk(a[1]))
+                idx_arg = any(x["k"] == "DeclRefExpr" and x.get("d") == pid for x in walk(a[2]))
+                ok = val_this and idx_arg
+    report(ok, NS + "expr::operator[]", "dsl:a[b] -> subscriptNode(value = a, index = b)", "src/occa/internal/lang/expr/expr.cpp", "value and index in order" if ok else "value and index not in order")
+    return n + 3
